@@ -1190,6 +1190,51 @@ EXTRA_CELLS = [
                               "P c = {1, 2};", "println(c.x, c.y);", "c.inc();")),
     ("struct_string_member/store", _x("struct S { string s; int b; };\n", '{Q}S c = {"abc", 2};', "println(c.s, c.b);", 'c.s = "q";')),
     ("swap_like/two_stores", _x("", "{Q}int c = 5; int d = 7; int t = 0;", "println(c, d);", "t = c; c = d; d = t;")),
+    # cells found while enumerating access paths into nested objects (harness/c09_paths.py); the first four are findings
+    ("double_array/elem", _x("", "{Q}double[3] c = [1.0, 2.0, 3.0];", "println(c[0], c[1], c[2]);", "c[0] = 77.0;")),
+    ("float_array/compound", _x("", "{Q}float[3] c = [1.0, 2.0, 3.0];", "println(c[0], c[1], c[2]);", "c[0] += 1.0;")),
+    ("array_copy_init/elem", _x("", "int[3] s = [1, 2, 3]; {Q}int[3] c = s;", "println(c[0], c[1], c[2]);", "c[0] = 77;")),
+    ("struct_copy_init/elem_literal", _x("struct N { int n; int w; };\nstruct O { N[2] items; int k; };\n", "O s = {[{1, 2}, {3, 4}], 5}; {Q}O c = s;",
+                                          "println(c.items[0].n, c.items[1].n, c.k);", "c.items[1] = {8, 9};")),
+    ("long_array/elem", _x("", "{Q}long[3] c = [1, 2, 3];", "println(c[0], c[1], c[2]);", "c[0] = 77;")),
+    ("struct_array_member/elem_store", _x("struct N { int n; int w; };\nstruct O { N[2] items; int k; };\n", "{Q}O c = {[{1, 2}, {3, 4}], 5};",
+                                           "println(c.items[0].n, c.items[1].n, c.k);", "c.items[1].n = 9;")),
+    ("struct_array_member/elem_compound", _x("struct N { int n; int w; };\nstruct O { N[2] items; int k; };\n", "{Q}O c = {[{1, 2}, {3, 4}], 5};",
+                                              "println(c.items[0].n, c.items[1].n, c.k);", "c.items[1].n += 5;")),
+    ("struct_array_member/elem_literal", _x("struct N { int n; int w; };\nstruct O { N[2] items; int k; };\n", "{Q}O c = {[{1, 2}, {3, 4}], 5};",
+                                             "println(c.items[0].n, c.items[1].n, c.k);", "c.items[1] = {8, 9};")),
+    ("struct_array_member/deep_store", _x("struct I { int v; int w; };\nstruct N { I in; int n; };\nstruct O { int k; N[2] items; };\n",
+                                           "{Q}O c = {5, [{{1, 2}, 3}, {{4, 6}, 7}]};", "println(c.items[0].in.v, c.items[1].in.v, c.k);", "c.items[1].in.v = 9;")),
+    ("struct_array/elem_member_chain", _x("struct I { int v; int w; };\nstruct N { I in; int n; };\nvoid f({Q}N[2] c) {\n  println(c[0].in.v, c[1].in.v, c[1].n);\n  c[1].in.v = 9;\n  println(c[0].in.v, c[1].in.v, c[1].n);\n}\n",
+                                           "N[2] x; x[0] = {{1, 2}, 3}; x[1] = {{4, 5}, 6};", "", "f(x);")),
+    ("chain4/store", _x("struct I { int v; int w; };\nstruct N { I in; int n; };\nstruct O { N in; int k; };\nstruct Q { O in; int z; };\n",
+                         "{Q}Q c = {{{{1, 2}, 3}, 4}, 5};", "println(c.in.in.in.v, c.z);", "c.in.in.in.v = 9;")),
+    ("string_array_param/elem", _x("void f({Q}string[2] c) {\n  println(c[0], c[1]);\n  c[0] = \"x\";\n  println(c[0], c[1]);\n}\n", 'string[2] s = ["a", "b"];', "", "f(s);")),
+    ("double_array2d/elem", _x("", "{Q}double[2][2] c = [[1.0, 2.0], [3.0, 4.0]];", "println(c[0][1], c[1][0]);", "c[0][1] = 9.0;")),
+    ("struct_string_array_member/elem", _x("struct S { string[2] sa; int b; };\n", '{Q}S c = {["a", "b"], 4};', "println(c.sa[0], c.sa[1], c.b);", 'c.sa[1] = "x";')),
+    ("struct_double_array_member/elem", _x("struct S { double[2] da; int b; };\n", "{Q}S c = {[1.0, 2.0], 4};", "println(c.da[0], c.da[1], c.b);", "c.da[1] = 9.0;")),
+    ("member_string_array/elem", _x("struct S { {Q}string[2] sa; int b; };\n", 'S c = {["a", "b"], 4};', "println(c.sa[0], c.sa[1], c.b);", 'c.sa[1] = "x";')),
+    ("struct_member/var_rhs", _x("struct S { int a; int b; };\n", "{Q}S c = {1, 2}; int u = 9;", "println(c.a, c.b);", "c.a = u;")),
+    ("struct_member/expr_rhs", _x("struct S { int a; int b; };\n", "{Q}S c = {1, 2}; int u = 9;", "println(c.a, c.b);", "c.a = u * 2 + 1;")),
+    ("struct_member/call_rhs", _x("struct S { int a; int b; };\nint g() { return 9; }\n", "{Q}S c = {1, 2};", "println(c.a, c.b);", "c.a = g();")),
+    ("struct_member/double_store", _x("struct S { double d; int b; };\n", "{Q}S c = {1.5, 2};", "println(c.d, c.b);", "c.d = 9.5;")),
+    ("struct_member/string_var_rhs", _x("struct S { string s; int b; };\n", '{Q}S c = {"a", 2}; string u = "zz";', "println(c.s, c.b);", "c.s = u;")),
+    ("struct_member/ternary_rhs", _x("struct S { int a; int b; };\n", "{Q}S c = {1, 2}; int u = 9;", "println(c.a, c.b);", "c.a = u > 3 ? 7 : 8;")),
+    ("member/var_rhs", _x("struct S { {Q}int a; int b; };\n", "S c = {1, 2}; int u = 9;", "println(c.a, c.b);", "c.a = u;")),
+    ("member/double_store", _x("struct S { {Q}double d; int b; };\n", "S c = {1.5, 2};", "println(c.d, c.b);", "c.d = 9.5;")),
+    # the store made in an expression / statement context other than a plain statement (evaluator/operators/assignment.cpp
+    # evaluate_assignment, loop headers, arguments); `x = (c = 6)`, `x = c = 6`, `if ((c = 6) > 0)` crash the interpreter for every operand
+    ("context/for_update_assign", _x("", "{Q}int c = 5; int i = 0;", "println(c);", "for (i = 0; i < 1; c = 7) { i++; }")),
+    ("context/for_update_inc", _x("", "{Q}int c = 5; int i = 0;", "println(c);", "for (i = 0; i < 1; c++) { i++; }")),
+    ("context/for_init_assign", _x("", "{Q}int c = 5; int i = 0;", "println(c);", "for (c = 0; i < 1; i++) { }")),
+    ("context/while_cond_inc", _x("", "{Q}int c = 5; int i = 0;", "println(c);", "while (c++ < 0) { i++; }")),
+    ("context/argument_inc", _x("int id(int a) { return a; }\n", "{Q}int c = 5;", "println(c);", "id(c++);")),
+    ("context/elem_assign_in_expr", _x("", "{Q}int[3] c = [1, 2, 3]; int x = 0;", "println(c[0], c[1], c[2]);", "x = (c[1] = 9);")),
+    ("context/elem_inc_in_expr", _x("", "{Q}int[3] c = [1, 2, 3]; int x = 0;", "println(c[0], c[1], c[2]);", "x = c[1]++ + 1;")),
+    ("context/member_inc_in_expr", _x("struct S { int a; int b; };\n", "{Q}S c = {1, 2}; int x = 0;", "println(c.a, c.b);", "x = c.a++ + 1;")),
+    ("context/struct_from_call", _x("struct S { int a; int b; };\nS mk() { S r = {8, 9}; return r; }\n", "{Q}S c = {1, 2};", "println(c.a, c.b);", "c = mk();")),
+    ("struct_member/whole_assign", _x("struct N { int n; int w; };\nstruct O { N in; int k; };\n", "{Q}O c = {{1, 2}, 3}; N t = {8, 9};",
+                                       "println(c.in.n, c.in.w, c.k);", "c.in = t;")),
 ]
 
 
